@@ -662,6 +662,7 @@ struct Args
 	int64_t one_index = -1;
 	int time_cap = -1;
 	bool no_evidence = false;
+	std::string evidence_name; // file stem under /verif/evidence (default: property id)
 };
 static uint64_t run_seed_of(const Args &a, uint64_t index) { return mix64(mix64(a.seed, strhash(a.prop)), index); }
 static uint64_t proc_seed_of(const Args &a, uint64_t start_index) { return mix64(mix64(a.seed ^ 0xabcdef, strhash(a.prop)), start_index); }
@@ -1023,7 +1024,7 @@ static void write_evidence(Property &prop, const Args &a, const Tally &t, double
 	o << " \"violations\": " << nviol << "\n";
 	o << "}\n";
 	mkdirs(std::string(VERIF_DIR) + "/evidence");
-	write_file(std::string(VERIF_DIR) + "/evidence/" + prop.id() + ".json", o.str());
+	write_file(std::string(VERIF_DIR) + "/evidence/" + (a.evidence_name.empty() ? std::string(prop.id()) : a.evidence_name) + ".json", o.str());
 }
 
 int driver_main(int argc, char **argv)
@@ -1084,6 +1085,8 @@ int driver_main(int argc, char **argv)
 			a.time_cap = atoi(need("--time-cap"));
 		else if (s == "--no-evidence")
 			a.no_evidence = true;
+		else if (s == "--evidence-name")
+			a.evidence_name = need("--evidence-name");
 		else
 		{
 			fprintf(stderr, "unknown argument %s\n", s.c_str());
